@@ -28,7 +28,7 @@ def run(ck):
                "of 30..70 allocate/write/close/abort/advance ops with sizes biased to the remaining budget (==, +-1, "
                "split over several shares); every allocate_buckets call is one evaluation; distinct = distinct "
                "(configuration, history prefix, request); non-trivial = request asks for at least one share it does not have")
-    ncases = 400 if ck.tier == "quick" else 20000
+    ncases = 250 if ck.tier == "quick" else 14000
     for ci in range(ncases):
         if not ck.mine(ci):
             continue
